@@ -7,7 +7,8 @@
 import re
 
 from ural.ensure_protocol import ensure_protocol
-from ural.patterns import DOMAIN_TEMPLATE, QUERY_VALUE_IN_URL_TEMPLATE
+from ural.get_hostname import get_hostname
+from ural.patterns import QUERY_VALUE_IN_URL_TEMPLATE
 
 from ural.utils import (
     safe_parse_qs,
@@ -17,7 +18,6 @@ from ural.utils import (
     urlsplit,
     urlunsplit,
     safe_urlsplit,
-    SplitResult,
 )
 
 NUMERIC_ID_RE = re.compile(r"[0-9]{8,}")
@@ -27,9 +27,6 @@ BASE_FACEBOOK_URL = "https://www.facebook.com"
 FACEBOOK_ID_RE = re.compile(r"^\d+$")
 FACEBOOK_FULL_ID_RE = re.compile(r"^\d+_\d+$")
 FACEBOOK_DOMAIN_RE = re.compile(r"(?:^|\.)(?:facebook\.[^.]+|fb\.me)$", re.I)
-FACEBOOK_URL_RE = re.compile(
-    DOMAIN_TEMPLATE % r"(?:[^.]+\.)*(?:facebook\.[^.]+|fb\.me)", re.I
-)
 MOBILE_REPLACE_RE = re.compile(r"^([^.]+\.)?facebook\.", re.I)
 
 URL_EXTRACT_RE = re.compile(QUERY_VALUE_IN_URL_TEMPLATE % r"u")
@@ -54,10 +51,12 @@ def is_facebook_url(url):
         bool: Whether given url is from Facebook.
 
     """
-    if isinstance(url, SplitResult):
-        return bool(re.search(FACEBOOK_DOMAIN_RE, url.hostname))
+    hostname = get_hostname(url)
 
-    return bool(re.match(FACEBOOK_URL_RE, url))
+    if hostname is None:
+        return False
+
+    return bool(re.search(FACEBOOK_DOMAIN_RE, hostname))
 
 
 def is_facebook_post_url(url):
